@@ -6,12 +6,12 @@ PROPS = {}
 
 PROPS["C17"] = {
     "level": "exploration",
-    "rule": ("enum: every string of length <= L over {a,b,/,:,.} x current package in {'',a,a/b}, parsed as label and as pattern; "
+    "rule": ("enum: every string of length <= L over {a,b,/,:,.} x current package in {'',a,a/b,.a}, parsed as label and as pattern; "
              "random: strings assembled from grammar pieces over a wider alphabet. Non-trivial = accepted by a parser and not a plain "
              "//pkg:name (shorthand, relative, recursive, :all, :..., odd spellings); distinct by (current package, string)."),
     "assumptions": [
         "meaning is asserted only for strings in the grammar of docs reference/labels.md; all other accepted strings must only round-trip and not panic",
-        "match sets are compared over a fixed universe of 70 labels (10 packages x 7 names) chosen for prefix/sibling boundaries",
+        "match sets are compared over a fixed universe of 105 labels (15 packages x 7 names) chosen for prefix/sibling boundaries",
     ],
     "exhaustive_parts": ["enum"],
     "exhaustive_scope": "part 'enum' enumerates the stated string space completely (L=6 quick, L=8 thorough); part 'random' is sampled",
